@@ -61,3 +61,6 @@ Qed.
 Lemma src_task_life : forall t,
   no_uaf [] (submit_events t ++ thread_events exec_range_src tryrun_dec_after_exec_src None [t]) = true.
 Proof. intro t. reflexivity. Qed.
+
+Lemma src_nested_ok : nested_ok exec_range_src = true.
+Proof. vm_compute. reflexivity. Qed.
